@@ -1,14 +1,14 @@
 CONSTANTS
   K = 2
   MaxSrc = 3
-  MaxOut = 0
-  MaxRuns = 1
+  MaxOut = 2
+  MaxRuns = 2
   ScanSubsets = FALSE
-  Tear = FALSE
-  MaxSeeds = 2
-  MaxSeedLen = 2
-  WithTwins = TRUE
-  ResizeAlways = TRUE
+  Tear = TRUE
+  MaxSeeds = 0
+  MaxSeedLen = 0
+  WithTwins = FALSE
+  ResizeAlways = FALSE
 SPECIFICATION Spec
 INVARIANT NoBrokenRule
 INVARIANT ExactOnSuccess
